@@ -39,6 +39,11 @@ def f(x):
 def g(x):
     c = f(x)
     return c
+
+def t(k, n):
+    for i in range(n):
+        v = k + i
+        yield v
 '''
 
 # scenario -> list of thread specs: ("probe", selector, key) or ("calls",)
@@ -55,6 +60,12 @@ SCENARIOS = {
     # same, but the toggling thread does not yield voluntarily: one preemption inside its deactivation lets the
     # overlay thread make its *first* call of f there
     "overlay-and-straight-toggler": [("probe-straight", "f > a"), ("overlay", "f > b")],
+    # the second thread's activation is refused (one of its selectors names a variable f does not have)
+    # while the first thread's probe on f is active
+    "refused-activation": [("probe", "f > a"), ("refused", "f > b", "f > nosuch")],
+    # each thread probes the generator function t; the first parks a half-consumed generator, whichever
+    # thread gets to it first closes it
+    "generator-handoff": [("genprobe", "t > v", "owner"), ("genprobe", "t > v", "closer")],
     "three-threads": [("probe", "f > a"), ("probe", "f > b"), ("calls",)],
 }
 
@@ -125,8 +136,13 @@ def find_library_locks():
 def expected_for(spec, k):
     """Sequential reference of one thread: (events, results) of calling f(k), g(k), f(k+1)."""
     results = ((k + 1) * 2, (k + 1) * 2, (k + 2) * 2)
-    if spec[0] == "calls":
+    if spec[0] in ("calls", "refused"):
         return (), results
+    if spec[0] == "genprobe":
+        own = tuple((("v", k + i),) for i in range(2))
+        if spec[2] == "owner":
+            return ((("v", k),),) + own, (k, k + 1)
+        return own, (k, k + 1)
     if spec[0] == "overlay":
         return None, results
     sel = spec[1]
@@ -141,7 +157,7 @@ def expected_for(spec, k):
     return tuple(tuple(sorted(e.items())) for e in ev), results
 
 
-def make_bodies(ns, specs, sched_ref):
+def make_bodies(ns, specs, sched_ref, box=None):
     """sched_ref[0] is the Execution (set after construction) - bodies yield voluntarily between
     their steps so that the default schedule already interleaves activation, calls and deactivation."""
     from ptera import probing
@@ -176,6 +192,38 @@ def make_bodies(ns, specs, sched_ref):
                     res = (r1, r2, r3)
                 finally:
                     p.__exit__(None, None, None)
+            elif spec[0] == "refused":
+                from ptera.selector import SelectorError
+
+                try:
+                    with probing(*spec[1:], env={"f": f, "g": g}) as p:
+                        p.subscribe(lambda ev: events.append(tuple(sorted(ev.items()))))
+                        f(k)
+                    events.append("the activation was accepted")
+                except SelectorError:
+                    pass
+                handoff("refused")
+                r1 = f(k)
+                handoff("called-f")
+                r2 = g(k)
+                res = (r1, r2, f(k + 1))
+            elif spec[0] == "genprobe":
+                t = ns["t"]
+                p = probing(spec[1], env={"t": t})
+                p.subscribe(lambda ev: events.append(tuple(sorted(ev.items()))))
+                with p:
+                    if spec[2] == "owner":
+                        it = t(k, 3)
+                        next(it)
+                        box["it"] = it
+                        del it
+                    handoff("parked")
+                    it = box.pop("it", None)
+                    if it is not None:
+                        it.close()
+                    del it
+                    handoff("closed")
+                    res = tuple(t(k, 2))
             elif spec[0] == "overlay":
                 from ptera import BaseOverlay, Immediate
                 from ptera.selector import select
@@ -206,10 +254,12 @@ def execute(scenario, prefix, critical_only):
     world.reset_context()
     ns = world.make_module(SRC)
     f, g = ns["f"], ns["g"]
-    orig = {"f": f.__code__, "g": g.__code__}
+    orig = {"f": f.__code__, "g": g.__code__, "t": ns["t"].__code__}
     visible, crit = visible_codes(critical_only)
     ref = [None]
-    x = S.Execution(make_bodies(ns, specs, ref), prefix, visible, opcode_codes=crit if critical_only else ())
+    box = {}
+    x = S.Execution(make_bodies(ns, specs, ref, box), prefix, visible, opcode_codes=crit if critical_only else (),
+                    entry_files={f.__code__.co_filename})
     ref[0] = x
     locks = find_library_locks()
     saved = [(m, a, getattr(m, a)) for m, a in locks]
@@ -237,13 +287,13 @@ def execute(scenario, prefix, critical_only):
         if x.results[t] != want:
             probs.append(f"thread {t} ({spec}): events/results {x.results[t]!r}, sequential reference {want!r}")
     if x.fatal is None:
-        for name in ("f", "g"):
+        for name in ("f", "g", "t"):
             for p in world.clean_state_problems(ns[name], orig[name]):
                 if "handler collection" not in p:
                     probs.append(f"after join, {name}: {p}")
         if ns.get("f") is not f or ns.get("g") is not g:
             probs.append("after join the module globals f/g are not the functions any more")
-        extra = [k for k in ns if k is None or (isinstance(k, str) and not k.startswith(("__", "_ptera")) and k not in ("f", "g"))]
+        extra = [k for k in ns if k is None or (isinstance(k, str) and not k.startswith(("__", "_ptera")) and k not in ("f", "g", "t"))]
         if extra:
             probs.append(f"module globals polluted: {extra!r}")
     world.reset_context()
